@@ -483,8 +483,11 @@ CSRMatrix make_coo(unsigned r, unsigned c, const Json &entries,
         is.push_back(i);
         js.push_back(j);
         xs.push_back(v);
-        if (!seen.insert({i, j}).second)
+        if (!seen.insert({i, j}).second) {
             dup = true;
+            if ((size_t)e[2].as_int() % VALS.size() >= NEX)
+                run.probe("coo_float_duplicate_summed");
+        }
         dense.set(i, j, add(dense.get(i, j), v));
     }
     if (dup)
@@ -626,6 +629,9 @@ void exec(Run &run)
                                 after++;
                         }
                     bool z = eq(*v, *zero);
+                    if ((size_t)o.geti("v") % VALS.size() >= NEX)
+                        run.probe(present ? "set_float_overwrite"
+                                          : "set_float_insert");
                     if (z && present)
                         run.probe(inrow == 1 ? "set_delete_last_in_row"
                                              : "set_delete");
